@@ -191,6 +191,9 @@ func checkLib(c libCase) error {
 		return fmt.Errorf("unknown kind %q", c.Kind)
 	}
 	if err != nil {
+		if lerr := locksFree(nil); lerr != nil {
+			err = fmt.Errorf("%v\n(and %v)", err, lerr)
+		}
 		return err
 	}
 	runtime.ReadMemStats(&ms)
@@ -212,6 +215,9 @@ func (g *G) mutateBytes(b []byte, counts []int) ([]byte, string) {
 		return append(b, g.bytesN(1, 20)...), "extend"
 	case k <= 6 && len(counts) > 0:
 		off := counts[g.n(0, len(counts)-1, "cntfield")]
+		if off >= len(b) || off+csLen(b[off:]) > len(b) {
+			return b, "wf" // (a transaction without inputs reads as the witness form: offsets are off)
+		}
 		old := csLen(b[off:])
 		v := pick(g, hugeCounts)
 		if g.chance(40) {
